@@ -370,6 +370,26 @@ def check_views(b, A, nm, n, roots_t, refs, cwd, tag):
     for t, u in zip(roots_t, roots):
         require(u in rt, 'dot.root_missing', dict(u=u))
         require(rt[u] == t, 'dot.wrong_function', dict(t=t, got=rt[u]))
+    # no roots: nothing is reachable (a refusal is as good)
+    for empty in ([], set()) if (sum(roots_t) % 8 == 0 and
+                                 len(b) <= 300) else ():
+        try:
+            b.dump(fname, roots=empty)
+        except (AssertionError, ValueError):
+            continue
+        finally:
+            text0 = None
+            if os.path.exists(fname):
+                with open(fname) as fd:
+                    text0 = fd.read()
+                os.remove(fname)
+        # (only the node statements are read: the text may be large)
+        ids0 = [x_ for x_ in read_dot(text0[:200000])[0]
+                if x_.strip('"').lstrip('-').isdigit()]
+        require(not ids0, 'dot.nodes_without_roots',
+                dict(got=sorted(ids0)[:8]))
+        g0 = _bdd.to_nx(b, empty)
+        require(len(g0.nodes) == 0, 'nx.nodes_without_roots')
 
 
 def run_all(spec, out):
